@@ -216,7 +216,22 @@ fn check_program(p: &Program, known: &Ctx) -> Verdict {
         Ok(b) => b,
         Err(_) => return refused("refused:CascFormat::build", &m),
     };
-    let j = oracle::judge(&bytes, &m, &keys.map, &keys.store);
+    let mut j = oracle::judge(&bytes, &m, &keys.map, &keys.store);
+    // the same chunks behind the extended chunk table (flags 0x10: 40-byte entries with the MD5 of
+    // the decoded chunk), as `BlteHeader::multi_chunk_extended` writes it
+    if j.findings.is_empty() && !file.header.is_single_chunk() {
+        if let Ok(h) = cascette_formats::blte::BlteHeader::multi_chunk_extended(&file.chunks) {
+            let ext = BlteFile { header: h, chunks: file.chunks.clone() };
+            if let Ok(b2) = CascFormat::build(&ext) {
+                let mut j2 = oracle::judge(&b2, &m, &keys.map, &keys.store);
+                for f in &mut j2.findings {
+                    f.key = f.key.replacen("C01:", "C01:extended-table:", 1);
+                }
+                j.findings.extend(j2.findings);
+                j.classes.push("also-behind-extended-table");
+            }
+        }
+    }
     verdict_from(j, &m, known)
 }
 
@@ -385,6 +400,35 @@ fn main() {
             move |p: &Program| check_program(p, &k4),
         )
         .shards(8),
+    );
+    // Chunks filled to the largest size the builder accepts, with data that does not shrink: the
+    // stored chunk is larger than its payload (mode byte, encryption header, zlib / LZ4 framing)
+    let k6 = known.clone();
+    ck.run(
+        Section::enumerate(
+            "full-size-chunks",
+            "builder with chunk size 16 MiB and 16 MiB + 5 / 32 MiB of incompressible data: mode N, Z, LZ4, plain and under with_encryption (Salsa20), and chunk size 16 MiB - 1".to_string(),
+            move || {
+                let keys = vec![KeyEntry { name: 0x1122_3344_5566_7788, key: [7u8; 16] }];
+                let spec = Spec { cipher: Cipher::Salsa20, key_ix: 0, iv: [1, 2, 3, 4] };
+                let mut v = Vec::new();
+                for (i, (cs, n)) in [(16usize << 20, (16usize << 20) + 5), (16 << 20, 32 << 20), ((16 << 20) - 1, (16 << 20) + 5)].into_iter().enumerate() {
+                    for mode in [M::N, M::Z, M::L4] {
+                        for enc in [false, true] {
+                            let mut ops = vec![Op::ChunkSize(cs), Op::Compression(mode)];
+                            if enc {
+                                ops.push(Op::Encryption(spec.clone()));
+                            }
+                            ops.push(Op::AddData(Payload { len: Len::Abs(n), class: PClass::Random, content_seed: 77 + i as u64 }));
+                            v.push(Program { keys: keys.clone(), builtin_store: false, cap: 40 << 20, ops });
+                        }
+                    }
+                }
+                Box::new(v.into_iter())
+            },
+            move |p: &Program| check_program(p, &k6),
+        )
+        .shards(9),
     );
     // Chunk counts around 2^16 (the count is a 24-bit field) and a lone pre-built encrypted chunk
     let k5 = known.clone();
